@@ -80,7 +80,7 @@ PROPS["C03"] = {
 }
 
 PROPS["C07"] = {
-    "lean": ["WsVerif.Props.C07", "WsVerif.Bridge.C07"],
+    "lean": ["WsVerif.Props.C07", "WsVerif.Props.C07Stream", "WsVerif.Bridge.C07", "WsVerif.Bridge.C04"],
     "rule": "Reader wiring: 16 (quick) / 316 (thorough) text payloads (valid, truncated, overlong, surrogate, > U+10FFFF) under EVERY split into "
             "three fragments, with and without ping/pong (non-UTF-8 payloads) between the fragments, followed on the same reader by a binary "
             "message holding invalid UTF-8 and another text message; chunkings {whole,1,2,5}; through ReadMessage, ReadData, Reader+ReadAll "
@@ -96,8 +96,13 @@ PROPS["C07"] = {
     "assumptions": COMMON_ASSUME + ["codep (decoded code point) is unobservable and not modelled"],
     "level_text": "Kernel-checked: all 9 x 256 transitions of the Hoehrmann table equal the Table 3-7 transition (decide over the regenerated table), "
                   "lifted by induction to every byte string, every split point and every chunking of the validating reader; REJECT sticky. "
-                  "PARTIAL until the message-reader wiring theorems (text_ok_iff) land with C04: the wiring is currently covered by correspondence only.",
-    "level_note": "Trusted: Lean kernel, Table 3-7 transcription, harness. Reader wiring (fragments/control frames) proved in a later step.",
+                  "Stream level (Props/C07Stream.text_message): a reader with CheckUTF8 on, between messages, given a text message in ANY fragmentation, with control "
+                  "frames between the fragments, under ANY transport chunking and ANY caller buffer sizes, ends the message with io.EOF having delivered exactly the "
+                  "payload iff the concatenated payload is well-formed (Table 3-7); otherwise the Reads hand out a prefix and then ErrInvalidUTF8 (at the first byte "
+                  "leaving the table, or at the end of a message that stops inside a character), never io.EOF - proved by simulating the checking reader with the "
+                  "non-checking one (Proofs/ReaderText: read_sim, reads_sim) over C04.message_delivered. PARTIAL: ReadMessage / ReadData (OnIntermediate set) and "
+                  "Discard on text messages are covered by correspondence and the oracle, not by the stream theorem.",
+    "level_note": "Trusted: Lean kernel, Table 3-7 transcription, harness; stream theorem scope: no receive extension, OnIntermediate unset.",
 }
 
 PROPS["C06"] = {
